@@ -402,7 +402,7 @@ def decode_inputs(decls, j):
 # ------------------------------------------------------------------------------------------------ native evaluation
 
 
-def run_native(unit, case, inputs_json):
+def run_native(unit, case, inputs_json, frame=True):
     """run the unit on concrete inputs with CPython; returns (outcome, [(prop, clause, bool)], canaries)"""
     decls = unit.inputs(case)
     a = decode_inputs(decls, inputs_json)
@@ -414,7 +414,7 @@ def run_native(unit, case, inputs_json):
     import io
 
     guard = None
-    if getattr(unit, "frame_check", False):
+    if frame and getattr(unit, "frame_check", False):
         from .state import StateGuard
 
         guard = StateGuard()
